@@ -102,12 +102,12 @@ Print Assumptions C01_offset_detectors_never_panic.
 (* the same detectors AS TRANSLATED FROM THE CURRENT SOURCE (Gen/SrcFuncs.v, translator harness/gores.go: each Go
    statement one binding, every index / slice expression and binary.X.Uint32 call with its run-time check, Go's
    evaluation order, uint32 / uint8 wrap-around, loops over the input as range_loop, `for cond` as while_loop with
-   fuel): all thirty-four functions are inside the translator's fragment ... *)
+   fuel): all thirty-seven functions are inside the translator's fragment ... *)
 Theorem C01_offset_detectors_all_translated : src_untranslated = [].
 Proof. reflexivity. Qed.
 Print Assumptions C01_offset_detectors_all_translated.
 
-(* ... and for every input made of bytes, at every limit, none of the fifteen detectors reaches Panic (an index or
+(* ... and for every input made of bytes, at every limit, none of the eighteen detectors of the table src_dets (the offset-computing ones, Text, Svg, Php) reaches Panic (an index or
    slice out of range, a Uint32 on fewer than four bytes, exhausted loop fuel), and each computes exactly the model
    that the tree walk evaluates for its node *)
 Theorem C01_source_offset_detectors_never_panic : forall name f raw (l : N), bytes_ok raw = true -> In (name, f) src_dets ->
